@@ -96,6 +96,32 @@ class References:
     else:
       return "+"
 
+  def _remove_nonfield_backreferences(self):
+    """
+    When the path is removed, a placeholder link keeps only the overlap
+    which the steps of the remaining paths specify (the overlap which a
+    step of this path gave to it is forgotten).
+    """
+    placeholders = []
+    for ol in self._refs.get("links", []):
+      l = ol.line
+      if isinstance(l, gfapy.Line) and l.virtual and \
+          not any(l is x for x in placeholders):
+        placeholders.append(l)
+    super()._remove_nonfield_backreferences()
+    for l in placeholders:
+      overlap = gfapy.AlignmentPlaceholder()
+      for path in l._refs.get("paths", []):
+        if not gfapy.is_placeholder(overlap):
+          break
+        steps = path._compute_required_links()
+        for idx, ol in enumerate(path._refs.get("links", [])):
+          if ol.line is l and not gfapy.is_placeholder(steps[idx][2]):
+            cigar = steps[idx][2]
+            overlap = cigar.complement() if ol.orient == "-" else cigar
+            break
+      l._set_existing_field("overlap", overlap, set_reference = True)
+
   def _initialize_segments(self):
     for sn_with_o in self.segment_names:
       s = self._gfa.segment(sn_with_o.line)
